@@ -11,6 +11,12 @@ theorem ite_eq_imp {c : Prop} [Decidable c] {a b m : Nat} {Q : Prop}
   · rw [if_pos hc] at h; exact h1 hc h
   · rw [if_neg hc] at h; exact h2 hc h
 
+/-- prove a disjunction by trying `omega` on each disjunct separately -/
+syntax "pick_omega" : tactic
+macro_rules
+  | `(tactic| pick_omega) =>
+    `(tactic| first | (refine Or.inl ?_; omega) | (refine Or.inr ?_; pick_omega) | omega)
+
 /-- complete case description of `npow2` on `[0, 65536]` with literal bounds (fodder for `omega`) -/
 theorem npow2_cases (n : Nat) (h : n ≤ 65536) :
     (n ≤ 1 ∧ npow2 n = 1) ∨ (1 < n ∧ n ≤ 2 ∧ npow2 n = 2) ∨ (2 < n ∧ n ≤ 4 ∧ npow2 n = 4)
@@ -24,7 +30,7 @@ theorem npow2_cases (n : Nat) (h : n ≤ 65536) :
   generalize hm : npow2 n = m
   revert hm
   unfold npow2
-  iterate 17 (refine ite_eq_imp (fun _ _ => by omega) (fun _ => ?_))
+  iterate 17 (refine ite_eq_imp (fun _ _ => by pick_omega) (fun _ => ?_))
   intro; omega
 
 /-- the 17 powers of two as literals -/
@@ -38,6 +44,14 @@ theorem pow2_cases (e : Nat) (h : e ≤ 16) :
       ∨ e = 11 ∨ e = 12 ∨ e = 13 ∨ e = 14 ∨ e = 15 ∨ e = 16 := by omega
   rcases this with rfl | rfl | rfl | rfl | rfl | rfl | rfl | rfl | rfl | rfl | rfl | rfl | rfl | rfl
     | rfl | rfl | rfl <;> decide
+
+/-- `npow2 n` is one of 17 literals -/
+theorem npow2_lit (n : Nat) (h : n ≤ 65536) :
+    npow2 n = 1 ∨ npow2 n = 2 ∨ npow2 n = 4 ∨ npow2 n = 8 ∨ npow2 n = 16 ∨ npow2 n = 32
+    ∨ npow2 n = 64 ∨ npow2 n = 128 ∨ npow2 n = 256 ∨ npow2 n = 512 ∨ npow2 n = 1024
+    ∨ npow2 n = 2048 ∨ npow2 n = 4096 ∨ npow2 n = 8192 ∨ npow2 n = 16384 ∨ npow2 n = 32768
+    ∨ npow2 n = 65536 := by
+  have := npow2_cases n h; omega
 
 theorem le_npow2 {n : Nat} (h : n ≤ 65536) : n ≤ npow2 n := by
   have := npow2_cases n h; omega
